@@ -90,6 +90,19 @@ def run(ctx):
         c07.r1d(ctx, facts, cfg, rule="C17.R3f")
         bn = {m.base: m for m in facts.fns if m.config == cfg and m.cls == c02.CLS and not m.rec.get("ctor") and not m.rec.get("dtor")}
         c02.check_empty_semantics(ctx, bn, rule="C17.R3g")
+        # ... and what the bounded queue underneath calls empty (seeded change C17-s17: empty() answered from the writer position
+        # cached at the last read, so the re-check before a logger is erased did not see a statement logged after that read) = C01.R4b-e
+        from rules import c01
+        from rules.c09 import Renamed
+        import re as _re
+        classes = list(facts.cls_all(c01.CLS, cfg))
+        ctx.floor("C17.R3h", "instantiations of BoundedSPSCQueueImpl", len(classes), 4)
+        for crec in classes:
+            em = [m for m in c01.methods_of(facts, crec["name"], cfg) if m.base == "empty"]
+            if not em:
+                raise AnalysisBroken("anchor %s::empty not found (config %s)" % (crec["name"], cfg))
+            tag = "BoundedSPSCQueueImpl<%s>" % _re.search(r"<(.*)>$", crec["name"]).group(1)
+            c01.check_empty(Renamed(ctx, "C01.R4", "C17.R3h-"), tag, em[0])
 
 
 def r1(ctx, facts, cfg):
